@@ -103,8 +103,12 @@ class Executor(ResolutionContext):
             or parent_type.default_resolver
             or self._default_resolver
         )
+        # Keyed by IDENTITY: resolvers may be callable objects which are not
+        # hashable, or which compare equal while doing different things. The
+        # entry keeps a reference to the resolver so its id is not reused.
+        key = id(base)
         try:
-            return self._resolver_cache[base]
+            return self._resolver_cache[key][1]  # type: ignore
         except KeyError:
             wrapped = (
                 self.runtime.wrap_callable(base)
@@ -113,7 +117,7 @@ class Executor(ResolutionContext):
             )
             if self._middlewares:
                 wrapped = apply_middlewares(wrapped, self._middlewares)
-            self._resolver_cache[base] = wrapped
+            self._resolver_cache[key] = (base, wrapped)  # type: ignore
             return wrapped
 
     def resolve_type(
